@@ -188,7 +188,7 @@ func c17FillPixels(rng *fw.Rand, p [][]uint8) string {
 // c17Build makes a source of the given kind whose *view* is w x h, from the
 // given pixels (nil: generated). allowFree lets colour / alpha pixels in, whose
 // value the statement does not fix.
-func c17Build(rng *fw.Rand, kind, w, h int, pix [][]uint8, allowFree bool) (*c17Source, string) {
+func c17Build(rng *fw.Rand, kind, w, h int, pix [][]uint8, allowFree, bilevel bool) (*c17Source, string) {
 	s := &c17Source{kind: kind}
 	fill := ""
 	if pix == nil {
@@ -317,6 +317,11 @@ func c17Build(rng *fw.Rand, kind, w, h int, pix [][]uint8, allowFree bool) (*c17
 		und = c17NewPixels(dw, dh)
 		for y := 0; y < dh; y++ {
 			copy(und[y], rng.Bytes(dw))
+			if bilevel { // the data around the window is bilevel too (a don't-care crop may show it)
+				for x := range und[y] {
+					und[y][x] = 255 * (und[y][x] & 1)
+				}
+			}
 		}
 		for y := 0; y < h; y++ {
 			copy(und[pt+y][pl:], pix[y])
@@ -506,25 +511,27 @@ var c17ClassName = []string{"in_view", "negative_origin", "outside_underlying", 
 // accepted tells whether the view changed.
 func c17CropOutcome(r *fw.Rec, v *c17View, l, t, cw, ch int, err error, gotNil bool, pfx string) (accepted bool, class, detail string) {
 	cl := v.classify(l, t, cw, ch)
-	where := fmt.Sprintf("Crop(%d,%d,%d,%d) on a view (%d,%d) %dx%d of a %dx%d image", l, t, cw, ch, v.L, v.T, v.w, v.h, v.W, v.H)
+	where := func() string {
+		return fmt.Sprintf("Crop(%d,%d,%d,%d) on a view (%d,%d) %dx%d of a %dx%d image", l, t, cw, ch, v.L, v.T, v.w, v.h, v.W, v.H)
+	}
 	if err == nil && gotNil {
-		return false, "nil-without-error", where + " returned nil, nil"
+		return false, "nil-without-error", where() + " returned nil, nil"
 	}
 	switch cl {
 	case c17CropIn:
 		if err != nil {
-			return false, "refuses-rect-inside-view", where + " failed: " + err.Error()
+			return false, "refuses-rect-inside-view", where() + " failed: " + err.Error()
 		}
 		r.Tally(pfx + "crop_in_view_accepted")
 		return true, "", ""
 	case c17CropNeg:
 		if err == nil {
-			return false, "accepts-negative-origin", where + " returned no error"
+			return false, "accepts-negative-origin", where() + " returned no error"
 		}
 		r.Tally(pfx + "crop_negative_origin_refused")
 	case c17CropOut:
 		if err == nil {
-			return false, "accepts-rect-outside-underlying", where + " returned no error"
+			return false, "accepts-rect-outside-underlying", where() + " returned no error"
 		}
 		r.Tally(pfx + "crop_outside_underlying_refused")
 	case c17CropDC:
@@ -557,148 +564,157 @@ func c17ViewSequence(r *fw.Rec, kind, w, h int, sample bool) bool {
 		}
 		return d
 	}
-	return c17Guard(r, data, func() bool { return c17ViewSequenceBody(r, kind, w, h, sample, &s, &trace, data) })
-}
-
-func c17ViewSequenceBody(r *fw.Rec, kind, w, h int, sample bool, sp **c17Source, tp *[]string, data func() map[string]interface{}) bool {
-	rng := r.Rng
-	s, bad := c17Build(rng, kind, w, h, nil, true)
-	*sp = s
-	if s == nil {
-		r.Violation("model-mismatch", c17Fam(kind, "New")+".New:fails-on-valid-input", bad, data())
-		return false
-	}
-	fail := func(op, class, detail string) bool {
-		r.Violation("model-mismatch", c17Fam(kind, op)+"."+op+":"+class, fmt.Sprintf("%s; after %v: %s", s.desc, trace, detail), data())
-		return false
-	}
-	src, v := s.src, s.v
-	if c, d := c17CheckView(src, v, rng); c != "" {
-		return fail("New", c, d)
-	}
-	r.Tally("source_" + c17KindName[kind])
-	if s.free > 0 {
-		r.Tally("source_with_colour_or_alpha_pixels")
-		r.TallyN("pixels_luminance_not_fixed_by_statement", int64(s.free))
-	}
-	// script
-	var script []string
-	switch rng.Intn(8) {
-	case 0: // four quarter turns, possibly after a crop
-		if rng.Bool() {
-			script = append(script, "crop")
+	return c17Guard(r, data, func() bool {
+		rng := r.Rng
+		var bad string
+		s, bad = c17Build(rng, kind, w, h, nil, true, false)
+		if s == nil {
+			r.Violation("model-mismatch", c17Fam(kind, "New")+".New:fails-on-valid-input", bad, data())
+			return false
 		}
-		script = append(script, "rot", "rot", "rot", "rot")
-	case 1: // double inversion around something
-		script = []string{"inv", "inv"}
-		if rng.Bool() {
-			script = []string{"inv", "crop", "inv"}
+		fail := func(op, class, detail string) bool {
+			r.Violation("model-mismatch", c17Fam(kind, op)+"."+op+":"+class, fmt.Sprintf("%s; after %v: %s", s.desc, trace, detail), data())
+			return false
 		}
-	case 2: // crop chain
-		n := 2 + rng.Intn(5)
-		for i := 0; i < n; i++ {
-			script = append(script, "crop")
-		}
-	default:
-		n := rng.Intn(7)
-		for i := 0; i < n; i++ {
-			switch x := rng.Intn(10); {
-			case x < 5:
-				script = append(script, "crop")
-			case x < 7:
-				script = append(script, "inv")
-			default:
-				script = append(script, "rot")
-			}
-		}
-	}
-	for len(script) < 6 && rng.Intn(3) == 0 {
-		script = append(script, []string{"crop", "inv", "rot"}[rng.Intn(3)])
-	}
-	turns, invs := 0, 0
-	for _, op := range script {
-		switch op {
-		case "crop":
-			turns, invs = 0, 0
-			l, t, cw, ch := c17GenCrop(rng, v)
-			trace = append(trace, fmt.Sprintf("Crop(%d,%d,%d,%d)", l, t, cw, ch))
-			if !src.IsCropSupported() {
-				if ns, err := src.Crop(l, t, cw, ch); err == nil {
-					return fail("Crop", "unsupported-but-no-error", fmt.Sprintf("IsCropSupported()=false but Crop returned %v, nil", ns))
-				}
-				r.Tally("crop_unsupported_refused")
-				continue
-			}
-			ns, err := src.Crop(l, t, cw, ch)
-			acc, class, detail := c17CropOutcome(r, v, l, t, cw, ch, err, ns == nil, "")
-			if class != "" {
-				return fail("Crop", class, detail)
-			}
-			if !acc {
-				// the refused source must be unchanged
-				if c, d := c17CheckView(src, v, rng); c != "" {
-					return fail("Crop", "refused-crop-changed-source:"+c, d)
-				}
-				continue
-			}
-			src, v = ns, v.crop(l, t, cw, ch)
-			if len(trace) > 1 && strings.HasPrefix(trace[len(trace)-2], "Crop") {
-				r.Tally("crop_of_crop_checked")
-			}
-		case "inv":
-			turns = 0
-			invs++
-			trace = append(trace, "Invert")
-			ns := src.Invert()
-			if ns == nil {
-				return fail("Invert", "nil", "Invert returned nil")
-			}
-			src = ns
-			v = v.copy()
-			v.inv = !v.inv
-			r.Tally("op_invert")
-			if invs == 2 {
-				r.Tally("double_inversion_checked")
-			}
-		case "rot":
-			invs = 0
-			trace = append(trace, "RotateCounterClockwise")
-			ns, err := src.RotateCounterClockwise()
-			if !src.IsRotateSupported() {
-				if err == nil {
-					return fail("RotateCounterClockwise", "unsupported-but-no-error", "IsRotateSupported()=false but RotateCounterClockwise returned no error")
-				}
-				r.Tally("rotate_unsupported_refused")
-				continue
-			}
-			if err != nil || ns == nil {
-				return fail("RotateCounterClockwise", "error", fmt.Sprintf("IsRotateSupported()=true but RotateCounterClockwise returned %v, %v", ns, err))
-			}
-			src, v = ns, v.rotate()
-			turns++
-			r.Tally("op_rotate")
-			if v.w != v.h {
-				r.Tally("op_rotate_non_square")
-			}
-			if turns == 4 {
-				r.Tally("four_quarter_turns_checked")
-			}
-		}
+		src, v := s.src, s.v
 		if c, d := c17CheckView(src, v, rng); c != "" {
-			return fail(c17OpName(trace[len(trace)-1]), c, d)
+			return fail("New", c, d)
 		}
-		r.Evals(1)
-		r.Tally("view_steps_checked")
-		r.TallyN("rows_checked", int64(v.h))
-	}
-	r.Max("max_ops_in_sequence", int64(len(trace)))
-	r.Max("max_side", int64(w))
-	r.Max("max_side", int64(h))
-	r.NontrivialH(c17Hash(fmt.Sprintf("v/%d/%d/%d/", kind, w, h) + strings.Join(trace, ",")))
-	if sample {
-		r.Sample(map[string]interface{}{"kind": "view sequence", "source": s.desc, "ops": trace})
-	}
-	return true
+		r.Tally("source_" + c17KindName[kind])
+		if s.free > 0 {
+			r.Tally("source_with_colour_or_alpha_pixels")
+			r.TallyN("pixels_luminance_not_fixed_by_statement", int64(s.free))
+		}
+		// script
+		var script []string
+		switch rng.Intn(8) {
+		case 0: // four quarter turns, possibly after a crop
+			if rng.Bool() {
+				script = append(script, "crop")
+			}
+			script = append(script, "rot", "rot", "rot", "rot")
+		case 1: // double inversion around something
+			script = []string{"inv", "inv"}
+			if rng.Bool() {
+				script = []string{"inv", "crop", "inv"}
+			}
+		case 2: // crop chain
+			n := 2 + rng.Intn(5)
+			for i := 0; i < n; i++ {
+				script = append(script, "crop")
+			}
+		default:
+			n := rng.Intn(7)
+			for i := 0; i < n; i++ {
+				switch x := rng.Intn(10); {
+				case x < 5:
+					script = append(script, "crop")
+				case x < 7:
+					script = append(script, "inv")
+				default:
+					script = append(script, "rot")
+				}
+			}
+		}
+		for len(script) < 6 && rng.Intn(3) == 0 {
+			script = append(script, []string{"crop", "inv", "rot"}[rng.Intn(3)])
+		}
+		turns, invs := 0, 0
+		for _, op := range script {
+			switch op {
+			case "crop":
+				turns, invs = 0, 0
+				l, t, cw, ch := c17GenCrop(rng, v)
+				trace = append(trace, fmt.Sprintf("Crop(%d,%d,%d,%d)", l, t, cw, ch))
+				if !src.IsCropSupported() {
+					if ns, err := src.Crop(l, t, cw, ch); err == nil {
+						return fail("Crop", "unsupported-but-no-error", fmt.Sprintf("IsCropSupported()=false but Crop returned %v, nil", ns))
+					}
+					r.Tally("crop_unsupported_refused")
+					continue
+				}
+				ns, err := src.Crop(l, t, cw, ch)
+				acc, class, detail := c17CropOutcome(r, v, l, t, cw, ch, err, ns == nil, "")
+				if class != "" {
+					return fail("Crop", class, detail)
+				}
+				if !acc {
+					// the refused source must be unchanged
+					if c, d := c17CheckView(src, v, rng); c != "" {
+						return fail("Crop", "refused-crop-changed-source:"+c, d)
+					}
+					continue
+				}
+				if v.classify(l, t, cw, ch) == c17CropDC {
+					// accepted although it leaves the view: it must then show the underlying pixels
+					nv := v.crop(l, t, cw, ch)
+					var c, d string
+					if msg, _, panicked := fw.Guard(func() { c, d = c17CheckView(ns, nv, rng) }); panicked {
+						c, d = "panic", "panic: "+msg
+					}
+					if c != "" {
+						return fail("Crop", "accepts-rect-outside-view-without-showing-underlying", fmt.Sprintf("Crop(%d,%d,%d,%d) on a view (%d,%d) %dx%d of a %dx%d image returned no error, then %s: %s", l, t, cw, ch, v.L, v.T, v.w, v.h, v.W, v.H, c, d))
+					}
+				}
+				src, v = ns, v.crop(l, t, cw, ch)
+				if len(trace) > 1 && strings.HasPrefix(trace[len(trace)-2], "Crop") {
+					r.Tally("crop_of_crop_checked")
+				}
+			case "inv":
+				turns = 0
+				invs++
+				trace = append(trace, "Invert")
+				ns := src.Invert()
+				if ns == nil {
+					return fail("Invert", "nil", "Invert returned nil")
+				}
+				src = ns
+				v = v.copy()
+				v.inv = !v.inv
+				r.Tally("op_invert")
+				if invs == 2 {
+					r.Tally("double_inversion_checked")
+				}
+			case "rot":
+				invs = 0
+				trace = append(trace, "RotateCounterClockwise")
+				ns, err := src.RotateCounterClockwise()
+				if !src.IsRotateSupported() {
+					if err == nil {
+						return fail("RotateCounterClockwise", "unsupported-but-no-error", "IsRotateSupported()=false but RotateCounterClockwise returned no error")
+					}
+					r.Tally("rotate_unsupported_refused")
+					continue
+				}
+				if err != nil || ns == nil {
+					return fail("RotateCounterClockwise", "error", fmt.Sprintf("IsRotateSupported()=true but RotateCounterClockwise returned %v, %v", ns, err))
+				}
+				src, v = ns, v.rotate()
+				turns++
+				r.Tally("op_rotate")
+				if v.w != v.h {
+					r.Tally("op_rotate_non_square")
+				}
+				if turns == 4 {
+					r.Tally("four_quarter_turns_checked")
+				}
+			}
+			if c, d := c17CheckView(src, v, rng); c != "" {
+				return fail(c17OpName(trace[len(trace)-1]), c, d)
+			}
+			r.Evals(1)
+			r.Tally("view_steps_checked")
+			r.TallyN("rows_checked", int64(v.h))
+		}
+		r.Max("max_ops_in_sequence", int64(len(trace)))
+		r.Max("max_side", int64(w))
+		r.Max("max_side", int64(h))
+		r.NontrivialH(c17Hash(fmt.Sprintf("v/%d/%d/%d/", kind, w, h) + strings.Join(trace, ",")))
+		if sample {
+			r.Sample(map[string]interface{}{"kind": "view sequence", "source": s.desc, "ops": trace})
+		}
+		return true
+	})
 }
 
 // c17Guard runs f; a panic becomes a violation carrying the case data.
@@ -728,7 +744,7 @@ func c17Hash(s string) uint64 {
 // on a small source, and (depth 2) every such crop of every accepted crop.
 func c17CropExhaustive(r *fw.Rec, kind, w, h int, depth int) {
 	rng := r.Rng
-	s, bad := c17Build(rng, kind, w, h, nil, false)
+	s, bad := c17Build(rng, kind, w, h, nil, false, false)
 	if s == nil {
 		r.Violation("model-mismatch", c17Fam(kind, "New")+".New:fails-on-valid-input", bad, nil)
 		return
@@ -737,37 +753,60 @@ func c17CropExhaustive(r *fw.Rec, kind, w, h int, depth int) {
 		s.src = s.src.Invert()
 		s.v.inv = true
 	}
-	var rec func(src gozxing.LuminanceSource, v *c17View, d int, trace []string) bool
-	rec = func(src gozxing.LuminanceSource, v *c17View, d int, trace []string) bool {
+	var cur [][4]int
+	ops := func() []string {
+		var out []string
+		for _, c := range cur {
+			out = append(out, fmt.Sprintf("Crop(%d,%d,%d,%d)", c[0], c[1], c[2], c[3]))
+		}
+		return out
+	}
+	var rec func(src gozxing.LuminanceSource, v *c17View, d int) bool
+	rec = func(src gozxing.LuminanceSource, v *c17View, d int) bool {
+		cur = append(cur, [4]int{})
 		for l := -2; l <= v.w+1; l++ {
 			for t := -2; t <= v.h+1; t++ {
 				for cw := 1; cw <= v.W+1; cw++ {
 					for ch := 1; ch <= v.H+1; ch++ {
+						cur[len(cur)-1] = [4]int{l, t, cw, ch}
 						ns, err := src.Crop(l, t, cw, ch)
 						r.Evals(1)
 						acc, class, detail := c17CropOutcome(r, v, l, t, cw, ch, err, ns == nil, "exh_")
-						tr := append(append([]string{}, trace...), fmt.Sprintf("Crop(%d,%d,%d,%d)", l, t, cw, ch))
 						if class == "" && acc {
 							nv := v.crop(l, t, cw, ch)
 							var c, dd string
-							if c, dd = c17CheckView(ns, nv, rng); c != "" {
+							if v.classify(l, t, cw, ch) == c17CropDC {
+								if msg, _, panicked := fw.Guard(func() { c, dd = c17CheckView(ns, nv, rng) }); panicked {
+									c, dd = "panic", "panic: "+msg
+								}
+								if c != "" {
+									c, dd = "accepts-rect-outside-view-without-showing-underlying", fmt.Sprintf("accepted a rectangle leaving the view (%d,%d) %dx%d, then %s: %s", v.L, v.T, v.w, v.h, c, dd)
+								}
+							} else {
+								c, dd = c17CheckView(ns, nv, rng)
+							}
+							if c != "" {
 								class, detail = c, dd
-							} else if d > 1 && !rec(ns, nv, d-1, tr) {
+							} else if d > 1 && !rec(ns, nv, d-1) {
 								return false
 							}
 						}
 						if class != "" {
-							r.Violation("model-mismatch", c17Fam(kind, "Crop")+".Crop:"+class, fmt.Sprintf("%s; after %v: %s", s.desc, tr, detail),
-								map[string]interface{}{"kind": c17KindName[kind], "w": w, "h": h, "source": s.desc, "ops": tr})
+							r.Violation("model-mismatch", c17Fam(kind, "Crop")+".Crop:"+class, fmt.Sprintf("%s; after %v: %s", s.desc, ops(), detail),
+								map[string]interface{}{"kind": c17KindName[kind], "w": w, "h": h, "source": s.desc, "ops": ops()})
 							return false
 						}
 					}
 				}
 			}
 		}
+		cur = cur[:len(cur)-1]
 		return true
 	}
-	if rec(s.src, s.v, depth, nil) {
+	data := func() map[string]interface{} {
+		return map[string]interface{}{"kind": c17KindName[kind], "w": w, "h": h, "source": s.desc, "ops": ops()}
+	}
+	if c17Guard(r, data, func() bool { return rec(s.src, s.v, depth) }) {
 		r.Nontrivial(fmt.Sprintf("exh/%d/%d/%d/%d", kind, w, h, depth))
 		r.Tally(fmt.Sprintf("exh_sources_depth%d", depth))
 	}
@@ -1255,10 +1294,15 @@ func c17CheckBinary(r *fw.Rec, bb *gozxing.BinaryBitmap, which int, v *c17View, 
 // c17Bilevel: one bilevel image W x H, one source kind, both binarisers,
 // 0..2 view operations through BinaryBitmap.
 func c17Bilevel(r *fw.Rec, W, H int, sample bool) bool {
+	ctx := map[string]interface{}{"w": W, "h": H}
+	return c17Guard(r, func() map[string]interface{} { return ctx }, func() bool { return c17BilevelBody(r, W, H, sample, ctx) })
+}
+
+func c17BilevelBody(r *fw.Rec, W, H int, sample bool, ctx map[string]interface{}) bool {
 	rng := r.Rng
 	pix, pname := c17BilevelPixels(rng, W, H)
 	kind := rng.Intn(c17NKinds)
-	s, bad := c17Build(rng, kind, W, H, pix, false)
+	s, bad := c17Build(rng, kind, W, H, pix, false, true)
 	if s == nil {
 		r.Violation("model-mismatch", c17Fam(kind, "New")+".New:fails-on-valid-input", bad, nil)
 		return false
@@ -1269,6 +1313,7 @@ func c17Bilevel(r *fw.Rec, W, H int, sample bool) bool {
 		s.desc += " inverted"
 		r.Tally("bin_source_inverted")
 	}
+	ctx["source"], ctx["pattern"] = s.desc, pname
 	for which := 0; which < 2; which++ {
 		trace := []string{}
 		fail := func(sig, detail string) bool {
@@ -1276,11 +1321,13 @@ func c17Bilevel(r *fw.Rec, W, H int, sample bool) bool {
 				map[string]interface{}{"kind": c17KindName[kind], "w": W, "h": H, "pattern": pname, "binarizer": c17BinName[which], "source": s.desc, "ops": trace})
 			return false
 		}
+		ctx["binarizer"] = c17BinName[which]
 		bb, err := gozxing.NewBinaryBitmap(c17NewBinarizer(which, s.src))
 		if err != nil || bb == nil {
 			return fail("BinaryBitmap.New:error", fmt.Sprint(err))
 		}
 		v := s.v
+		dcAccepted := false
 		nops := 0
 		if rng.Intn(3) == 0 {
 			nops = 1 + rng.Intn(2)
@@ -1289,6 +1336,7 @@ func c17Bilevel(r *fw.Rec, W, H int, sample bool) bool {
 			if rng.Bool() {
 				l, t, cw, ch := c17GenCrop(rng, v)
 				trace = append(trace, fmt.Sprintf("Crop(%d,%d,%d,%d)", l, t, cw, ch))
+				ctx["ops"] = trace
 				if !bb.IsCropSupported() {
 					return fail("BinaryBitmap.IsCropSupported:false", "IsCropSupported()=false for a source that supports cropping")
 				}
@@ -1298,11 +1346,15 @@ func c17Bilevel(r *fw.Rec, W, H int, sample bool) bool {
 					return fail(c17Fam(kind, "Crop")+".Crop:"+class, "BinaryBitmap."+detail)
 				}
 				if acc {
+					if v.classify(l, t, cw, ch) == c17CropDC {
+						dcAccepted = true
+					}
 					bb, v = nb, v.crop(l, t, cw, ch)
 					r.Tally("bin_op_crop")
 				}
 			} else {
 				trace = append(trace, "RotateCounterClockwise")
+				ctx["ops"] = trace
 				nb, err := bb.RotateCounterClockwise()
 				rotatable := kind != c17Ints && kind != c17YUV
 				if bb.IsRotateSupported() != rotatable {
@@ -1322,7 +1374,17 @@ func c17Bilevel(r *fw.Rec, W, H int, sample bool) bool {
 				}
 			}
 		}
-		if c, d := c17CheckBinary(r, bb, which, v, "bin_"); c != "" {
+		var c, d string
+		if msg, _, panicked := fw.Guard(func() { c, d = c17CheckBinary(r, bb, which, v, "bin_") }); panicked {
+			if !dcAccepted {
+				panic(msg)
+			}
+			c, d = "panic", "panic: "+msg
+		}
+		if c != "" {
+			if dcAccepted {
+				return fail(c17Fam(kind, "Crop")+".Crop:accepts-rect-outside-view-without-showing-underlying", "BinaryBitmap.Crop accepted a rectangle leaving the view, then "+c+": "+d)
+			}
 			return fail(c, d)
 		}
 		if (v.w < 40) != (v.h < 40) {
@@ -1382,8 +1444,14 @@ func c17Writers() []c17Writer {
 }
 
 func c17Symbol(r *fw.Rec, wr c17Writer, scale int, sample bool) bool {
+	ctx := map[string]interface{}{"writer": wr.name, "scale": scale}
+	return c17Guard(r, func() map[string]interface{} { return ctx }, func() bool { return c17SymbolBody(r, wr, scale, sample, ctx) })
+}
+
+func c17SymbolBody(r *fw.Rec, wr c17Writer, scale int, sample bool, ctx map[string]interface{}) bool {
 	rng := r.Rng
 	content := wr.content(rng)
+	ctx["content"] = content
 	w := wr.w()
 	nat, err := w.Encode(content, wr.format, 0, 0, nil)
 	if err != nil || nat == nil {
@@ -1401,6 +1469,7 @@ func c17Symbol(r *fw.Rec, wr c17Writer, scale int, sample bool) bool {
 			rh += rng.Intn(8)
 		}
 	}
+	ctx["requested"] = []int{rw, rh}
 	bm, err := w.Encode(content, wr.format, rw, rh, nil)
 	if err != nil || bm == nil {
 		r.Tally("sym_writer_refused_" + wr.name)
@@ -1425,7 +1494,7 @@ func c17Symbol(r *fw.Rec, wr c17Writer, scale int, sample bool) bool {
 		r.Tally("sym_source_bitmatrix_image")
 	} else {
 		kind = rng.Intn(c17NKinds)
-		s, bad := c17Build(rng, kind, W, H, pix, false)
+		s, bad := c17Build(rng, kind, W, H, pix, false, true)
 		if s == nil {
 			r.Violation("model-mismatch", c17Fam(kind, "New")+".New:fails-on-valid-input", bad, nil)
 			return false
